@@ -514,7 +514,81 @@ class Exec:
             res.extend(self.exec_block(node.orelse, s2))
         return res
 
+    def inline_target(self, call, st):
+        """(key, receiver) when `call` invokes a user function / method that the contract asks to inline"""
+        f = call.func
+        if isinstance(f, ast.Attribute):
+            m = self.contract.ghosts.get('inline_method:' + f.attr)
+            if m is not None:
+                return m, f.value
+            return None
+        if isinstance(f, ast.Name) and f.id not in st.env:
+            g = self.fn.resolve_global(f.id)
+            if isinstance(g, Opaque) and g.name.startswith('func:') and (f.id in self.contract.inline) and g.payload not in self.registry:
+                return g.payload, None
+        return None
+
+    def inline_paths(self, call, st):
+        """execute an inlined callee with path splitting: list of (state, return value, raise-outcome or None)"""
+        tgt = self.inline_target(call, st)
+        if tgt is None:
+            return None
+        from .extract import get_function
+        key, recv = tgt
+        info = get_function(key[0], key[1], root=self.fn.root)
+        fn = info.node
+        args = ([self.eval(recv, st)] if recv is not None else []) + [self.eval(a, st) for a in call.args]
+        kwargs = {k.arg: self.eval(k.value, st) for k in call.keywords}
+        sub = Exec.__new__(Exec)
+        sub.__dict__.update(self.__dict__)
+        sub.fn = info
+        sub.loop_nodes = sub._number_loops(fn)
+        inl = self.contract.ghosts.get('inline:' + key[1].split('.')[-1])
+        if inl is not None:
+            sub.contract = inl
+        else:
+            sub.contract = copy.copy(self.contract)
+            sub.contract.loops = {}
+        params = [a.arg for a in fn.args.args]
+        vals = list(args)
+        defaults = fn.args.defaults
+        for p_ in params[len(vals):]:
+            if p_ in kwargs:
+                vals.append(kwargs[p_])
+            else:
+                idx = params.index(p_) - (len(params) - len(defaults))
+                if idx < 0:
+                    raise Unsupported('missing argument %s in inline call' % p_)
+                vals.append(ast.literal_eval(defaults[idx]))
+        caller_env = st.env
+        s = st.copy()
+        s.env = dict(zip(params, vals))
+        res = []
+        for s2, oc in sub.exec_block(fn.body, s):
+            s2.env = dict(caller_env)
+            if oc is None:
+                res.append((s2, None, None))
+            elif oc[0] == Outcome.RETURN:
+                res.append((s2, oc[1], None))
+            elif oc[0] == Outcome.RAISE:
+                res.append((s2, None, oc))
+            else:
+                raise Unsupported('inlined callee outcome %s' % oc[0])
+        return res
+
     def stmt_Assign(self, node, st):
+        if isinstance(node.value, ast.Call) and not self.spec_mode:
+            res = self.inline_paths(node.value, st)
+            if res is not None:
+                out = []
+                for s2, v, oc in res:
+                    if oc is not None:
+                        out.append((s2, oc))
+                        continue
+                    for t in node.targets:
+                        self.assign(t, v, s2)
+                    out.append((s2, None))
+                return out
         v = self.eval(node.value, st)
         for t in node.targets:
             self.assign(t, v, st)
@@ -1552,13 +1626,19 @@ class Exec:
                 payload = z3.Select(arr[0], obj.r)
                 if sn == 'opt:ref':
                     payload = ObjRef(payload, None)
-                return OptVal(z3.Select(arr[1], obj.r), payload, self.contract.ghosts.get('truthy:' + name, None))
+                tr = self.contract.ghosts.get('truthy:' + name, None)
+                if callable(tr):
+                    tr = tr(payload)
+                return OptVal(z3.Select(arr[1], obj.r), payload, tr)
             v = z3.Select(arr, obj.r)
             if sn == 'ref':
                 return ObjRef(v, None)
             return v
         if isinstance(obj, Opaque):
             return lib.opaque_attr(obj, name)
+        if is_z3(obj) and obj.sort() == Val:
+            fn = z3.Function('ATTR_' + name, Val, Val)
+            return fn(obj)
         if isinstance(obj, Record):
             if name not in obj.attrs:
                 raise Unsupported('attribute %s of record %s' % (name, obj.name))
@@ -1661,8 +1741,56 @@ class Exec:
 
     # ---- calls --------------------------------------------------------------------------------
 
+    def opaque_args(self, vals):
+        out = []
+        for a in vals:
+            if isinstance(a, OptVal):
+                out.append(a.is_none)
+                a = a.some
+            if isinstance(a, ObjRef):
+                out.append(a.r)
+            elif isinstance(a, XReal):
+                out += [a.pinf, a.ninf, a.val]
+            elif is_z3(a):
+                out.append(a)
+            elif is_conc_num(a):
+                out.append(to_z3(a))
+            elif a is None:
+                out.append(z3.BoolVal(True))
+            elif isinstance(a, NDRef):
+                out.append(z3.Const('buf_' + a.buf.split('!')[0], Val))
+            else:
+                raise Unsupported('opaque call with argument %r' % (a,))
+        return out
+
+    def opaque_apply(self, name, base, args, kwargs, st, node):
+        """uninterpreted pure function named after the member, applied to the receiver and the arguments"""
+        hook = self.contract.ghosts.get('opaque_hook')
+        if hook is not None:
+            r = hook(self, st, name, base, args, kwargs)
+            if r is not NotImplemented:
+                return r
+        zargs = self.opaque_args(([base] if base is not None else []) + list(args) + [kwargs[k] for k in sorted(kwargs)])
+        fn = z3.Function('OPQ_' + name + ''.join('_' + k for k in sorted(kwargs)), *[a.sort() for a in zargs], Val)
+        self.assumed.append('opaque: %s is a pure function of its receiver and arguments' % name)
+        return fn(*zargs)
+
     def expr_Call(self, node, st):
+        if isinstance(node.func, ast.Attribute) and not self.spec_mode:
+            basev = None
+            try:
+                basev = self.eval(node.func.value, st)
+            except Unsupported:
+                basev = None
+            if is_z3(basev) and basev.sort() == Val or (isinstance(basev, OptVal) and is_z3(basev.some) and basev.some.sort() == Val):
+                args = [self.eval(a, st) for a in node.args]
+                kwargs = {k.arg: self.eval(k.value, st) for k in node.keywords}
+                return self.opaque_apply(node.func.attr, basev, args, kwargs, st, node)
         f = self.eval(node.func, st)
+        if is_z3(f) and f.sort() == Val:
+            args = [self.eval(a, st) for a in node.args]
+            kwargs = {k.arg: self.eval(k.value, st) for k in node.keywords}
+            return self.opaque_apply('call', f, args, kwargs, st, node)
         args = []
         for a in node.args:
             if isinstance(a, ast.Starred):
@@ -1816,7 +1944,10 @@ class Exec:
                 v = oc[1] if oc is not None else None
                 cond = band(*s2.pc[base_n:])
                 val = v if val is None and s2 is normal[-1][0] else ite(to_z3(cond), v, val)
-            # state effects of branching callees are not merged
+            # state effects of branching callees cannot be merged here: only pure callees may branch
+            for s2, oc in normal:
+                if s2.store != st.store or s2.heap != st.heap or s2.pyfields != st.pyfields:
+                    raise Unsupported('branching callee %s has side effects: it must be called at statement level' % key[1])
             return val
         s2, oc = rets[0]
         st.store = s2.store
